@@ -1079,6 +1079,12 @@ func (fr *Frame) enterLoop(li *loopInfo) {
 		t := fr.evalSpecBool(cl.Expr, fr.cur, fr.entry, nil)
 		c.assume(imp(fr.cur.reach, t))
 	}
+	for _, cl := range fr.loopClauses(li, "assume") {
+		// assumed (unchecked) loop fact: reported with the function's assumptions
+		fr.x.externs[fmt.Sprintf("ASSUMED (unchecked) at the head of loop %d of %s: %s", li.ord, fr.fn.Name(), cl.Text)] = true
+		t := fr.evalSpecBool(cl.Expr, fr.cur, fr.entry, nil)
+		c.assume(imp(fr.cur.reach, t))
+	}
 	// 4. instances of separately proved arithmetic lemmas
 	for _, cl := range fr.loopClauses(li, "apply") {
 		fr.applyLemma(cl, fr.cur, nil)
